@@ -37,6 +37,7 @@ def make_species(I, idx, name_w, notes, elements, temps_w, phase_w=1):
         I.sym_strings[sym] = (sw, 'alpha')
         cnt = D.sym('%s.n%d' % (tag, k))
         I.order.ranks['%s.n%d' % (tag, k)] = 5 * 10 ** (digits - 1) if digits else 0   # a witness with that many digits
+        I.int_syms.add('%s.n%d' % (tag, k))           # element counts are whole numbers
         if digits:
             I.num_widths[repr(cnt)] = digits
         el.d[sym] = cnt
@@ -52,25 +53,50 @@ def make_species(I, idx, name_w, notes, elements, temps_w, phase_w=1):
     return Obj(tag, attrs=attrs)
 
 
-def val_eq(I, a, b):
+def printed_ok(spec, need):
+    """does a number printed with ``spec`` come back within the tolerance the property states?  need: 'T' (0.1 K:
+    fixed notation with at least one decimal) or 'coef' (nine significant digits)"""
+    import re as _re
+    mm = _re.match(r'^%?[ +\-#0]*\d*(?:\.(\d+))?([a-zA-Z])$', spec or '')
+    if not mm:
+        return False
+    prec, typ = mm.group(1), mm.group(2)
+    prec = int(prec) if prec is not None else 6
+    if need == 'T':
+        return (typ in 'fF' and prec >= 1) or (typ in 'eE' and prec >= 5)
+    if need == 'coef':
+        return typ in 'eE' and prec >= 8
+    return False
+
+
+def val_eq(I, a, b, need=None):
     a, b = I.plain(a), I.plain(b)
     if isinstance(a, Rat) and isinstance(b, Rat):
-        return a.eq(b)
+        if a.eq(b):
+            return True
+        # a number read back from its printed form: the printed value, if the format keeps the stated precision
+        ats = list(a.atoms())
+        if len(ats) == 1 and ats[0] in I.printed and a.eq(Rat.atom(ats[0])):
+            spec, v = I.printed[ats[0]]
+            return v.eq(b) and printed_ok(spec, need)
+        return False
     if isinstance(a, ListV) and isinstance(b, ListV):
-        return len(a) == len(b) and all(val_eq(I, x, y) for x, y in zip(a.items, b.items))
+        return len(a) == len(b) and all(val_eq(I, x, y, need) for x, y in zip(a.items, b.items))
     if isinstance(a, DictV) and isinstance(b, DictV):
-        return set(a.d) == set(b.d) and all(val_eq(I, a.d[k], b.d[k]) for k in a.d)
+        return set(a.d) == set(b.d) and all(val_eq(I, a.d[k], b.d[k], need) for k in a.d)
     if isinstance(a, (Rat, ListV, DictV, SegStr)) or isinstance(b, (Rat, ListV, DictV, SegStr)):
         return False
     return a == b
 
 
-def roundtrip(run, repo, label, specs, write_date=False, as_dict=False, fmt='list', supp=None, order=None):
+def roundtrip(run, repo, label, specs, write_date=False, as_dict=False, fmt='list', supp=None, order=None,
+              to_file=False):
     m = repo.module(TD)
     wfn, rfn = m.functions.get('write_thermdat'), m.functions.get('read_thermdat')
     if wfn is None or rfn is None:
         raise AnchorError('write_thermdat/read_thermdat not found')
     I = Interp(repo, order=RankOrder({}, const_ranks=True))
+    I.track_print_precision = True      # what is read back is the number as printed, not the number that was printed
     built = []
 
     def nasa_stub(I_, fr, args, kwargs):
@@ -81,7 +107,23 @@ def roundtrip(run, repo, label, specs, write_date=False, as_dict=False, fmt='lis
 
     def now(I_, fr, args, kwargs, n):
         o = Obj('now')
-        o.opaque_methods['strftime'] = lambda I2, o2, a, k: SegStr.field('date', 8, 'num')
+        def strftime(I2, o2, a, k):
+            fmt_ = a[0] if a else k.get('format')
+            if not isinstance(fmt_, str):
+                raise Unsupported('strftime with a symbolic format')
+            widths = {'Y': 4, 'm': 2, 'd': 2, 'H': 2, 'M': 2, 'S': 2, 'y': 2, 'j': 3, 'f': 6, '%': 1}
+            w, i_ = 0, 0
+            while i_ < len(fmt_):
+                if fmt_[i_] == '%' and i_ + 1 < len(fmt_):
+                    if fmt_[i_ + 1] not in widths:
+                        raise Unsupported('strftime directive %%%s' % fmt_[i_ + 1])
+                    w += widths[fmt_[i_ + 1]]
+                    i_ += 2
+                else:
+                    w += 1
+                    i_ += 1
+            return SegStr.field('date', w, 'num')
+        o.opaque_methods['strftime'] = strftime
         return o
     I.native['datetime.datetime.now'] = now
     species = [make_species(I, i, *sp) for i, sp in enumerate(specs)]
@@ -109,15 +151,27 @@ def roundtrip(run, repo, label, specs, write_date=False, as_dict=False, fmt='lis
             expect = [extra] + expect
         if txt:
             wkw['supp_txt'] = '! species fitted in this work' + ('\n' if txt_nl else '')
+    if to_file:
+        # the file branch of the writer: what ends up in the file is what a reader gets
+        wkw['filename'] = 'thermdat'
     text = I.call_function(m, wfn, [], wkw)
     species = expect
     res = {'I': I, 'species': species, 'text': text, 'read': None, 'built': built}
-    if isinstance(text, Raised) or not isinstance(text, (SegStr, str)):
-        res['write_error'] = text
-        return res
-    text = I.seg(text)
-    res['lines'] = text.splitlines()
-    I.files['thermdat'] = res['lines']
+    if to_file:
+        if isinstance(text, Raised):
+            res['write_error'] = text
+            return res
+        res['lines'] = list(I.files.get('thermdat', []))
+        if not res['lines']:
+            res['write_error'] = 'nothing was written to the file'
+            return res
+    else:
+        if isinstance(text, Raised) or not isinstance(text, (SegStr, str)):
+            res['write_error'] = text
+            return res
+        text = I.seg(text)
+        res['lines'] = text.splitlines()
+        I.files['thermdat'] = res['lines']
     I.hazards = []
     I.cuts = []
     out = I.call_function(m, rfn, [], {'filename': 'thermdat', 'format': fmt})
@@ -245,7 +299,8 @@ def compare_species(run, repo, res, label, key_suffix=''):
             got = rd.attrs.get(attr)
             fnr = m.functions.get('_read_line1' if attr in ('name', 'phase', 'elements', 'T_low', 'T_high', 'T_mid')
                                   else '_read_line2', rfn)       # where to point the report only
-            if not run.check(val_eq(I, got, want), 'TABLE.readback', 'thermdat.read_thermdat', 'attr:' + attr + key_suffix,
+            need = 'T' if attr.startswith('T_') else ('coef' if attr.startswith('a_') else None)
+            if not run.check(val_eq(I, got, want, need), 'TABLE.readback', 'thermdat.read_thermdat', 'attr:' + attr + key_suffix,
                              '[%s] %s of species %s reads back as %s, written from %s'
                              % (label, attr, sp.name, show(I.plain(got), 120), show(want, 120)), m, fnr,
                              sample='[%s] %s.%s survives write->read' % (label, sp.name, attr)
@@ -332,6 +387,27 @@ def check(run, repo):
                      % (label, show(res['write_error'])), repo.module(TD), repo.module(TD).functions['write_thermdat'])
             continue
         compare_species(run, repo, res, label, ' [repeated species]')
+    # further shapes of the input: names as long as the keywords END / THERMO, five composition entries of which one
+    # has the count zero (four remain to be written), notes longer than their field (they are cut, nothing else moves),
+    # and the same species written to a file instead of returned
+    more = [('name as long as END', [(3, 5, [(1, 1), (2, 2)], (5, 6, 6)), (6, None, [(1, 2)], (3, 5, 4))], {}),
+            ('zero count among five composition entries', [(8, 5, [(1, 1), (1, 3), (2, 2), (1, 0), (1, 1)], (5, 6, 6))], {}),
+            ('zero count first of five composition entries', [(8, 5, [(2, 0), (1, 3), (2, 2), (1, 1), (1, 2)], (5, 6, 6))], {}),
+            ('notes longer than the field', [(8, 12, [(1, 1), (2, 2)], (5, 6, 6)), (3, 20, [(2, 1)], (3, 5, 4))], {}),
+            ('written to a file', multi, {'to_file': True}),
+            ('written to a file with date', multi, {'to_file': True, 'write_date': True})]
+    for label, specs, kw_ in more:
+        res = roundtrip(run, repo, label, specs, **kw_)
+        n_cases += 1
+        if 'write_error' in res:
+            run.fail('TABLE.write', 'thermdat.write_thermdat', 'raises', '[%s] writing raises %s'
+                     % (label, show(res['write_error'])), repo.module(TD), repo.module(TD).functions['write_thermdat'])
+            continue
+        if 'notes' not in label:
+            layout_rules(run, repo, res, label)
+        compare_species(run, repo, res, label, ' [%s]' % label)
+        for node, txt in res['I'].hazards:
+            hazards_seen.setdefault(getattr(node, 'lineno', 0), (node, txt))
     # supplementary data / comment block in every combination of presence and final newline
     for data_nl, txt, txt_nl in ((True, False, False), (False, False, False), (None, True, True), (None, True, False),
                                  (True, True, True), (False, True, True), (True, True, False), (False, True, False)):
@@ -354,7 +430,7 @@ def check(run, repo):
                                                                                else ''),
                   repo.module(TD), repo.module(TD).functions['write_thermdat'])
         compare_species(run, repo, res, label, ' [%s]' % label)
-    run.floor('thermdat cases', n_cases, 33)
+    run.floor('thermdat cases', n_cases, 39)
     run.extra['cases'] = n_cases
     # record lines must never be classified by a test that depends on user-controlled text
     m = repo.module(TD)
@@ -376,6 +452,12 @@ def check(run, repo):
 
 T_ = 'pmutt/io/thermdat.py'
 MUTANTS = [
+    {'name': 'date stamp with dashes', 'expect': ('TABLE', 'write_thermdat'),
+     'edits': [(T_, "now.strftime('%Y%m%d')", "now.strftime('%Y-%m-%d')")]},
+    {'name': 'lower temperature bound written without a decimal', 'expect': ('TABLE.readback', 'read_thermdat'),
+     'edits': [(T_, "'%.1f' % nasa_specie.T_low", "'%.0f' % nasa_specie.T_low")]},
+    {'name': 'notes written in full', 'expect': ('TABLE', ''),
+     'edits': [(T_, "notes = nasa_specie.notes[:8]", "notes = nasa_specie.notes")]},
     {'name': 'one coefficient with 7 decimals', 'expect': ('TABLE', 'write_thermdat record'),
      'edits': [(T_, "line = ('{: 2.8E}{: 2.8E}{: 2.8E}{: 2.8E}{: 2.8E}    2\\n'", "line = ('{: 2.8E}{: 2.7E}{: 2.8E}{: 2.8E}{: 2.8E}    2\\n'")]},
     {'name': 'line 3 swaps a_high[5] and a_high[6]', 'expect': ('TABLE.readback', 'read_thermdat'),
